@@ -26,7 +26,8 @@ from hl7apy import get_default_encoding_chars, get_default_version, \
     get_default_validation_level, check_version, check_encoding_chars, check_validation_level
 from hl7apy.consts import N_SEPS, N_SEPS_27
 from hl7apy.core import is_base_datatype, Message, Group, Segment, Field, Component, SubComponent, ElementFinder
-from hl7apy.exceptions import InvalidName, ParserError, InvalidEncodingChars, MessageProfileNotFound
+from hl7apy.exceptions import InvalidName, ParserError, InvalidEncodingChars, MessageProfileNotFound, \
+    LegacyMessageProfile
 from hl7apy.validation import Validator
 
 try:
@@ -76,6 +77,8 @@ def parse_message(message, validation_level=None, find_groups=True, message_prof
         reference = message_profile[message_structure] if message_profile else None
     except KeyError:
         raise MessageProfileNotFound()
+    if reference is not None and reference[0] == 'mp':
+        raise LegacyMessageProfile()  # as Message(name, reference=profile) does
 
     try:
         m = Message(name=message_structure, reference=reference, version=version,
